@@ -134,6 +134,23 @@ func init() {
 	}
 	E[symPkg+"Symbolic"] = func(fr *frame, args []value) value { return true }
 	E[symPkg+"Mark"] = func(fr *frame, args []value) value { fr.i.mark(fr, gostr(args[0])); return nil }
+	E[symPkg+"Freeze"] = func(fr *frame, args []value) value {
+		// freeze everything reachable from the given roots and from the globals of /repo's packages
+		p := fr.i.path
+		p.frozen = map[*value]bool{}
+		p.frozenMaps = map[*omap]bool{}
+		seen := map[any]bool{}
+		for g, cell := range fr.i.globals {
+			if g.Pkg != nil && fr.i.isTarget(g.Pkg) && !strings.HasPrefix(g.Pkg.Pkg.Path(), "verifharness") {
+				fr.i.freezeWalk(cell, seen)
+			}
+		}
+		for _, r := range args[0].([]value) {
+			fr.i.freezeVal(r, seen)
+		}
+		p.frozenOn = true
+		return nil
+	}
 	E[symPkg+"CountAdd"] = func(fr *frame, args []value) value {
 		fr.i.hostCounters[gostr(args[0])] += asInt64(args[1])
 		return nil
